@@ -1043,6 +1043,10 @@ def inline_new_helpers(doc, known_ids, max_blocks=24, rounds=2):
                     break
                 i, c = hit[0]
                 _inline_one(cf, i, small[c])
+                # the helper's name-resolved HIR tables (match arms, if conditions) now belong to the caller too
+                for key in ("matches", "ifs"):
+                    if small[c].get(key):
+                        cf[key] = list(cf.get(key, [])) + [x for x in small[c][key] if x not in cf.get(key, [])]
                 done.append((cid, c))
                 changed = True
         if not changed:
